@@ -178,7 +178,8 @@ func arrayContainsFunc(_ *ctx.EvalCtx, receiver object.Object, args ...object.Ob
 		isArr := el.Type() == object.ARR_OBJ && target.Type() == object.ARR_OBJ
 
 		if isObj || isArr {
-			if reflect.DeepEqual(el, target) {
+			// compare the values, an empty array equals any other empty array
+			if reflect.DeepEqual(el.Val(), target.Val()) {
 				return &object.Bool{Value: true}, nil
 			}
 
